@@ -564,6 +564,28 @@ def gen_script(rng, max_ops, profile):
             if depth == 0 and all(p_ in pals for p_ in (0, 1, 2, 4)):
                 mode = rng.below(2)
                 lines.append('runtyped %d %d%s' % (rng.below(4), mode, (' %d' % rng.range(1, 6)) if mode and rng.chance(1, 2) else ''))
+        elif choice == 'createdestroy':
+            # an entity created and destroyed at once inside one locked section (one pack), then a fresh creation: the dead handle stays
+            # dead, the new entity gets a handle of its own
+            if depth:
+                continue
+            cs_ = sorted(set(rng.pick(pals) for _ in range(rng.range(0, 2))))
+            k_ = st.n
+            lines += ['lock', ('create 0 %s' % ' '.join(map(str, cs_))).rstrip(), 'destroynow 0 #%d' % k_, 'unlock']
+            st.n += 1
+            for _ in range(rng.range(1, 2)):
+                lines.append(('create 0 %s' % ' '.join(map(str, cs_))).rstrip())
+                st.comps[st.n] = closure(cs_); st.shared[st.n] = set(); st.n += 1
+            lines.append('valid #%d' % k_)
+        elif choice == 'removeassign':
+            # one pack removes a component the entity has and assigns it again with a new value: the entity ends with the new value.
+            # Trivial component types only (the lifecycle of the replaced instance is the open finding C03/pack-remove-then-assign-same-component)
+            hs_ = [h for h in live_handles() if h not in st.marked and not st.shared.get(h) and any(p_ in (0, 1, 4, 7, 12) for p_ in st.comps[h])]
+            if depth or deps or not hs_:
+                continue
+            h = rng.pick(hs_)
+            c_ = rng.pick([p_ for p_ in sorted(st.comps[h]) if p_ in (0, 1, 4, 7, 12)])
+            lines += ['lock', 'remove 0 #%d %d' % (h, c_), 'assign 0 #%d %d %d' % (h, c_, value()), 'unlock']
         elif choice == 'depkeep':
             # one pack assigns a dependent with a value, gives the entity the master, and removes the dependent again: the removal has no
             # effect while the master is present, so the dependent stays WITH the assigned value
@@ -690,7 +712,7 @@ PROFILE_BASIC = {
     'threads': [0, 0, 1, 2, 3], 'pals': [0, 1, 2, 3, 4, 5, 6, 7], 'chunkcap': [0, 2, 3, 4, 8],
     'verchunk': [1, 2, 3, 5, 1024], 'deps': 0, 'shared': [], 'createarch': True,
     'weights': {'create': 26, 'destroynow': 10, 'destroy': 5, 'assign': 14, 'remove': 9, 'set': 8, 'get': 6,
-                'clone': 3, 'update': 4, 'cleararch': 2, 'lock': 6, 'unlock': 9, 'build': 7, 'recycle': 2, 'createremove': 2, 'clear': 1, 'splitassignremove': 2},
+                'clone': 3, 'update': 4, 'cleararch': 2, 'lock': 6, 'unlock': 9, 'build': 7, 'recycle': 2, 'createremove': 2, 'clear': 1, 'splitassignremove': 2, 'createdestroy': 2},
 }
 
 
@@ -711,6 +733,11 @@ def corpus(prop):
         ('positions_chunks', hdr + ['chunkcap 2', 'reg 0', 'reg 2', 'update'] + ['create 0 0 2'] * 7 +
          ['set #%d 0 %d' % (i, 10 + i) for i in range(7)] + ['destroynow 0 #0', 'destroynow 0 #3', 'destroynow 0 #6', 'assign 0 #1 3 5', 'remove 0 #2 0', 'clone #4']),
     ]
+    c['C12'] = [
+        # an entity created with a shared type holds a private default instance; assigning it an equal value explicitly moves it
+        # onto the canonical instance, which the next entity assigned that value shares
+        ('created_then_assigned_equal_value', hdr + ['reg 0', 'update', 'create 0 0 s0', 'create 0 0', 'assignshared #0 0 0', 'assignshared #1 0 0', 'getshared #0 0', 'getshared #1 0', 'create 0 0', 'assignshared #2 0 0']),
+    ]
     return c.get(prop, [])
 
 
@@ -727,6 +754,7 @@ def profile(name):
     elif name == 'C05':
         p['shared'] = [0, 1]
         p['create_shared'] = 'once'
+        p['weights'].update({'removeassign': 4})
         p['threads'] = [1, 2, 3, 4]
         p['pals'] = [0, 1, 2, 3, 4, 5, 7, 8]
         p['weights'].update({'lock': 12, 'unlock': 8, 'create': 22, 'assign': 18, 'remove': 12, 'destroynow': 12, 'destroy': 6})
